@@ -24,14 +24,15 @@ for f in sorted(glob.glob(os.path.join(VERIF, "seeded", "*", "meta.json"))):
     m = json.load(open(f))
     d = os.path.dirname(f)
     own = m["property"]
-    det = m.get("detected_by", [])
+    det = m.get("detected_by", []) + [c + "(thorough)" for c in m.get("detected_by_thorough", [])]
     ran = sorted(m.get("checks", {}))
-    rows.append((m["seed"], own, "yes" if m.get("confirmed") else "NO", "yes" if own in det else "no",
+    rows.append((m["seed"], own, "yes" if m.get("confirmed") else "NO", "yes" if own in det else ("thorough tier" if own + "(thorough)" in det else "no"),
                  " ".join(det) or "-", " ".join(c for c in ran if c not in det) or "-", first_line(os.path.join(d, "notes.md"))))
 print("| seeded change | breaks | confirmed | caught by its own check | caught by | ran silent | what it is |")
 print("|---|---|---|---|---|---|---|")
 for r in rows:
     print("| " + " | ".join(r) + " |")
 n = len(rows)
-print(f"\n{n} changes; {sum(1 for r in rows if r[3] == 'yes')} caught by the check of the property they were written against; "
+print(f"\n{n} changes; {sum(1 for r in rows if r[3] == 'yes')} caught by the quick check of the property they were written against "
+      f"(+{sum(1 for r in rows if r[3] == 'thorough tier')} by its thorough tier only); "
       f"{sum(1 for r in rows if r[4] != '-')} caught by at least one check.")
